@@ -95,7 +95,7 @@ def cycles(tier, rng):
         # the third role the API offers: an OF_ENCODER_AND_DECODER instance accepts the same parameters and must then
         # be usable for either job
         execs.append(gen.encode_exec(p, both=True))
-        execs.append(gen.decode_exec(p, sub, api=rng.choice(["recv", "setavail"]) if sub == sorted(sub) else "recv", finish=True, probe="end", both=True))
+        execs.append(gen.decode_exec(p, sub, api=rng.choice(["recv", "setavail"]) if sub == sorted(sub) else "recv", finish=True, probe="end", both=True, builds_before=rng.choice([0, 1, p.r])))
     return execs
 
 
